@@ -1339,11 +1339,12 @@ def join_rename(left: RT, right: RT, on_cids, user_suffix):
         return {n: n for n in right_names}
     suffix = "_" + right.name if right.name is not None else "_right"
     cnt = 0
-    for n in right_names:
-        s = n + suffix + (f"_{cnt}" if cnt > 0 else "")
-        while s in left_names or s in right_names:
-            cnt += 1
-            s = n + suffix + f"_{cnt}"
+
+    def sfx(n):
+        return n + suffix + (f"_{cnt}" if cnt > 0 else "")
+
+    while any(sfx(n) in left_names or sfx(n) in right_names for n in right_names):
+        cnt += 1
     if cnt > 0:
         suffix += f"_{cnt}"
     right_on = {n for n, c in right.visible if c in on_cids}
